@@ -175,7 +175,7 @@ def cases(tier, rng, dist, focus=None):
                "keep": rng.random() < 0.5, "num": rng.choice(["np", "py"]), "mode": rng.choice(["random"] * 4 + ["zero", "max"]), "aseed": rng.randint(0, 10**9)}
     for _ in range(N // 3):
         n = rng.randint(1, 7)
-        if n == 1 and rng.random() < 0.5:
+        if rng.random() < 0.25:
             yield {"f": "prng", "seed": real_seed(rng), "gseed": rng.randint(0, 10**6)}
         yield {"f": "permute", "x": [str(Fraction(rng.randint(0, 3))) for _ in range(n)], "mode": rng.choice(["random", "random", "zero", "max"]), "aseed": rng.randint(0, 10**9)}
     for _ in range(N // 3):
